@@ -112,6 +112,7 @@ class Ghost:
         self.ONE = GVar(0, "one", Z(1), Z(1), "one")
         self._inv = {}
         self.opnds = []
+        self.ties = []          # a_x == h_x mod p for the operands: hypotheses of tied clauses
         self.publics = []
 
     # -- variables --------------------------------------------------------------
@@ -126,7 +127,11 @@ class Ghost:
             else:
                 # a named field element equal to h mod p (keeps `mod` out of the terms the clauses are built from)
                 a = P.fresh("t_" + nm, define=(lambda val, hh=hh, p=self.p: val(hh) % p))
-                P.axiom(z3.And(a >= 0, a < self.p, a == hh % self.p))
+                # the tie is a HYPOTHESIS of the clauses that need it (verify.run_config adds self.ties to the S/E
+                # obligations of clauses not declared `untied`); a global axiom would let a clause that only holds
+                # for tied operands be used at call sites whose arguments are fresh witnesses
+                P.axiom(z3.And(a >= 0, a < self.p))
+                self.ties.append(a == hh % self.p)
         else:
             hh = term(h)
             a = P.fresh("a_" + nm, define=(lambda val, hh=hh, p=self.p: val(hh) % p))      # default: the honest value
